@@ -123,7 +123,7 @@ def replay_model_graph(sysm, g, init_snap, init_obs, max_states, rng):
     at each one the real system is put into the corresponding state (bytes reached along the BFS tree) and
     every outgoing edge's operation is applied.  With max_states < |graph| the first half of the budget goes
     to the shallowest states and the rest to a seeded sample of the others."""
-    succ = g.succ()
+    succ = {s: sorted(v, key=lambda x: x[1]) for s, v in g.succ().items()}   # by label: independent of TLC's ids/order
     order, parent = list(g.init), {s: None for s in g.init}
     qi = 0
     while qi < len(order):
@@ -220,7 +220,7 @@ def run(chk):
         d = chk.work / ("g_" + name) if dump else None
         return tlc.run(SPECS / "config/MC_Llamactl.tla", SPECS / ("config/MC_Llamactl_%s.cfg" % cfg),
                        workdir=chk.work / ("tlc_" + name), deadlock=False, dump=d,
-                       workers=chk.pick(4, 6), coverage=ignore is not None, timeout=1500)
+                       workers=chk.pick(4, 6), coverage=ignore is not None, timeout=1500, extra=("-fp", "0"))
 
     pool = ThreadPoolExecutor(max_workers=len(jobs))
     futures = {j[0]: pool.submit(_tlc, j) for j in jobs}
